@@ -72,10 +72,18 @@ func (c *Cluster) onLogReplayed(inc *Incarnation, old, now *Mirror) {
 			cands = append(cands, &Mirror{Entries: []MEntry{{Index: p.index, Term: p.term, Placeholder: true}}})
 		}
 	}
+	if c.Cfg.LostUnsynced && p == nil {
+		// Trailing entries that no returned fsync ever covered may be gone after a power loss.
+		for k := 1; k <= old.Unsynced && k < len(old.Entries); k++ {
+			cands = append(cands, &Mirror{Entries: append([]MEntry(nil), old.Entries[:len(old.Entries)-k]...)})
+		}
+	}
 	for _, m := range cands {
 		if mirrorsEqual(m, now) {
-			if m != old {
+			if m != old && p != nil {
 				r.probe("reopen-saw-inflight-" + p.kind)
+			} else if m != old {
+				r.probe("reopen-lost-never-synced-tail")
 			}
 			return
 		}
@@ -213,7 +221,8 @@ func (c *Cluster) durableHas(n *Node, idx, term, hash uint64) bool {
 
 func (r *Recorder) onFatal(inc *Incarnation, where, stack string) {
 	n := inc.Node
-	if n.FS.ErrFired > 0 {
+	if n.FS.ErrFired > 0 && n.FS.OpCount-n.FS.ErrFiredOp <= 3 {
+		// The repository's answer to a storage error is fail-stop: expected, not a finding.
 		r.probe("fatal-after-injected-disk-error")
 		n.FS.ErrFired = 0
 		return
@@ -526,6 +535,16 @@ func (c *Cluster) healPhase() {
 				if voters[n.ID] && n.Inc.haveConf && n.Inc.lastConfIdx < latest {
 					cause += "+stale-config"
 					break
+				}
+			}
+			// ... or a running node has adopted (at restart: the latest configuration in its log)
+			// a configuration that was never committed, while the others still use an older one.
+			if !strings.Contains(cause, "+stale-config") {
+				for _, n := range c.upNodes() {
+					if n.Inc.haveConf && n.Inc.lastConfIdx > latest {
+						cause += "+uncommitted-config-in-force"
+						break
+					}
 				}
 			}
 		}
